@@ -1,7 +1,7 @@
 (* Props/C10.v — property theorems only. *)
 From Coq Require Import List NArith ZArith Bool.
 From N0 Require Import Base.PyStr Base.PyVal Compare.Util Compare.Flags Compare.Match Compare.MatchProofs
-  Compare.Model Compare.Spec Compare.WalkLemmas Compare.VerdictProofs Compare.ReportProofs Compare.FilterProofs Compare.ExclReading.
+  Compare.Model Compare.Spec Compare.WalkLemmas Compare.VerdictProofs Compare.ReportProofs Compare.FilterProofs Compare.ExclReading Compare.OnlyStrProofs Compare.TransformTypesProofs.
 Import ListNotations.
 
 (* One pattern matches an xpath iff the parts of the pattern after its last empty
@@ -103,3 +103,30 @@ Theorem C10_filters_nonvacuous :
   walk_guard MKeyed fx_a /\ pats_truthy pat_any_y = true.
 Proof. exact filter_example. Qed.
 Print Assumptions C10_filters_nonvacuous.
+
+(* compare_only / exclude_xpaths "given as str or tuple": one pattern as a bare str means what the one-element
+   tuple means - the whole report (or exception) is the same.  Both walks, any flags, any other options.  (The
+   filter theorems read the option through its pattern list only; a str is never taken as a set of characters
+   or searched for key names.) *)
+Theorem C10_compare_only_str_is_tuple :
+  forall fl s excl tr m ck a b, s <> [] ->
+  compare_top fl (mk_opts (PStr s) excl tr) m ck a b = compare_top fl (mk_opts (PSeq [s]) excl tr) m ck a b.
+Proof. exact compare_only_str_is_tuple. Qed.
+Print Assumptions C10_compare_only_str_is_tuple.
+
+Theorem C10_exclude_str_is_tuple :
+  forall fl only s tr m ck a b r, walk_guard m a ->
+  compare_top fl (mk_opts only (PSeq []) tr) m ck a b = Ok r ->
+  compare_top fl (mk_opts only (PStr s) tr) m ck a b = compare_top fl (mk_opts only (PSeq [s]) tr) m ck a b.
+Proof. exact exclude_str_is_tuple. Qed.
+Print Assumptions C10_exclude_str_is_tuple.
+
+(* transform, the other half of the pair-level statement: when the transformed values are of different types the pair
+   is reported (unless compare_only filters the entry out), and the entry carries the original values *)
+Theorem C10_transform_pair_types :
+  forall fl o rec par ck tp p pd sl sd x y,
+  same_type (transformed o tp x) (transformed o tp y) = false ->
+  cmp_pair fl o rec par ck tp p pd sl sd x y =
+  Ok (if only_ok o par pd then [if f_types fl then DiffType pd x y else NotEq p x y] else []).
+Proof. exact transform_pair_types. Qed.
+Print Assumptions C10_transform_pair_types.
